@@ -277,6 +277,215 @@ def f():
 ---
 def f():
     assert 1 == 2, 'boom'
+---
+def f():
+    log = []
+    def noisy(v):
+        log.append(v)
+        return v
+    g = (noisy(v) for v in [1, 2, 3, 4])
+    first = next(g)
+    found = next((v for v in g if v > 2), None)
+    return first, found, log, next(g, 'end'), next(g, 'end')
+---
+def f():
+    log = []
+    def check(v):
+        log.append(v)
+        return v > 1
+    return any(check(v) for v in [0, 1, 2, 3]), all(check(v) for v in [5, 0, 7]), log
+---
+def f():
+    def count_up():
+        n = 0
+        while True:
+            yield n
+            n += 1
+    g = count_up()
+    return [next(g), next(g), next(g)], next(v for v in count_up() if v * v > 50)
+---
+def f():
+    log = []
+    def gen():
+        log.append('start')
+        yield 1
+        log.append('between')
+        yield 2
+        log.append('end')
+    g = gen()
+    log.append('created')
+    a = next(g)
+    log.append('got %d' % a)
+    rest = list(g)
+    return log, rest
+---
+def f():
+    def inner():
+        yield 1
+        yield 2
+        return 'done'
+    def outer():
+        r = yield from inner()
+        yield r
+        yield from [7, 8]
+    return list(outer())
+---
+def f():
+    def pairs(xs):
+        for i, a in enumerate(xs):
+            for b in xs[i + 1:]:
+                if a == b:
+                    continue
+                yield a, b
+        else:
+            yield 'over', None
+    return list(pairs([1, 2, 2, 3]))
+---
+def f():
+    def g():
+        try:
+            yield 1
+            yield 1 // 0
+        except ZeroDivisionError:
+            yield 'caught'
+        finally:
+            pass
+        yield 'after'
+    return list(g())
+---
+def f():
+    def acc():
+        total = 0
+        while True:
+            v = yield total
+            if v is None:
+                return
+            total += v
+    g = acc()
+    out = [next(g), g.send(3), g.send(4)]
+    return out
+---
+def f():
+    import itertools
+    xs = [1, 2, 3, 4, 5]
+    return (list(itertools.chain([1], (2, 3), 'ab')), list(itertools.islice(xs, 1, None)), list(itertools.islice(xs, 2)),
+            list(itertools.accumulate(xs)), list(itertools.accumulate(xs, lambda a, b: a * b, initial=10)),
+            list(zip(xs, itertools.islice(xs, 1, None))), list(itertools.islice(itertools.repeat(7), 3)), list(itertools.product('ab', [1, 2])))
+---
+def f():
+    from itertools import chain as _chain, islice, count
+    from functools import partial as _partial, reduce
+    import operator as _op
+    add3 = _partial(_op.add, 3)
+    pw = _partial(pow, exp=2) if False else _partial(lambda a, b: a ** b, b=2)
+    return (list(_chain(range(2), range(5, 7))), add3(4), pw(5), reduce(lambda a, b: a * b, [1, 2, 3, 4]), reduce(_op.add, [], 'z'),
+            list(islice(count(10, 5), 3)), _op.itemgetter(1)(['a', 'b']), _op.itemgetter(0, 2)('xyz'), sorted([(2, 'b'), (1, 'z')], key=_op.itemgetter(0)),
+            _op.gt(3, 2), _op.le(3, 2), _op.getitem({'k': 5}, 'k'), _op.neg(4), _op.contains([1, 2], 2), _op.not_(0))
+---
+def f():
+    import functools
+    log = []
+    def step(acc, v):
+        log.append((acc, v))
+        return acc and (v <= 3)
+    return functools.reduce(step, (v for v in [1, 2, 5, 1]), True), log
+---
+def f():
+    data = [3, 8, 1]
+    out = [(y := v * 2) + 1 for v in data]
+    total = 0
+    running = [total := total + v for v in data]
+    hit = any((last := v) > 5 for v in data)
+    return out, y, running, total, hit, last
+---
+def f():
+    table = (('x', 1), ('y', 2))
+    pick = lambda name: next((val for key, val in table if name == key), None)
+    return pick('y'), pick('q'), next(iter([]), 'dflt')
+---
+def f():
+    return next(iter([]))
+---
+def f():
+    it = iter([1, 2, 3, 4, 5])
+    a = list(zip(it, it))
+    m = map(lambda v: v * 2, [1, 2, 3])
+    first = next(m)
+    return a, first, list(m), list(m), list(filter(None, [0, 1, '', 'a'])), list(map(lambda a, b: a + b, [1, 2, 3], [10, 20]))
+---
+def f():
+    xs = [1, 2, 3]
+    r = reversed(xs)
+    e = enumerate(xs, start=1)
+    return next(r), list(r), next(e), list(e), list(reversed(range(3))), list(reversed('ab'))
+---
+def f():
+    calls = []
+    def src():
+        calls.append(1)
+        return len(calls)
+    return list(iter(src, 3)), calls
+---
+def f():
+    heap = [5, 1, 4]
+    import itertools
+    def pop(h):
+        return h.pop(0)
+    return next(v for v in map(pop, itertools.repeat(heap)) if v < 3), heap
+---
+def f():
+    d = {'a': 1, 'b': 2}
+    get = d.__getitem__
+    xs = [10, 20, 30]
+    return list(map(get, ['b', 'a'])), list(map(xs.__getitem__, range(2))), dict(zip('ab', (1, 2))), dict(((k, v * 2) for k, v in d.items())), dict([('q', 1)], r=2)
+---
+def f():
+    a, b = (v * 2 for v in (1, 2))
+    first, *rest = (v for v in range(4))
+    def args(*a, **k):
+        return a, k
+    return a, b, first, rest, args(*(v for v in 'ab'), **{'z': 1}), [*map(str, [1, 2])], sum(v for v in range(4)), sum((v for v in [1.5, 2]), 10)
+---
+def f():
+    return min((v for v in [3, 1, 2]), default=9), max((v for v in []), default=9), min(3, 1, 2, key=lambda v: -v), sorted((v for v in [3, 1, 2]), reverse=True), max('abc', key=ord)
+---
+def f():
+    return max(v for v in [])
+---
+def f():
+    g = (v for v in [1, 2])
+    return len(g)
+---
+def f():
+    f2 = len
+    table = {'n': len, 's': str, 'm': max}
+    return f2([1, 2]), table['n']('abc'), table['s'](12), table['m'](1, 5), list(map(str, [1, 2])), list(map(len, ['a', 'bb'])), list(map(abs, [-1, 2]))
+---
+def f():
+    out = []
+    for i, (a, b) in enumerate(zip('ab', (v for v in [1, 2, 3]))):
+        out.append((i, a, b))
+    return out, [x for x in (v for v in [1, 2, 3]) if x != 2], {k: v for k, v in zip('xy', (1, 2))}, list(zip([1, 2], 'ab', strict=True))
+---
+def f():
+    return list(zip([1, 2], 'abc', strict=True))
+---
+def f():
+    def gen():
+        yield 1
+        raise ValueError('boom')
+    g = gen()
+    a = next(g)
+    try:
+        next(g)
+    except ValueError:
+        a += 10
+    return a, next(g, 'closed')
+---
+def f():
+    import itertools
+    groups = [[1, 2], [], [3]]
+    return list(itertools.chain.from_iterable(groups)), list(itertools.starmap(lambda a, b: a + b, [(1, 2), (3, 4)])), list(itertools.takewhile(lambda v: v < 3, [1, 2, 3, 1])), list(itertools.zip_longest([1, 2], 'a', fillvalue='-')), list(itertools.pairwise([1, 2, 3]))
 '''
 
 
